@@ -45,6 +45,16 @@ def q_machine(ch: Choices) -> dict[str, Any]:
     if ch.flip("q.poison", 0.15):
         # a message that is delivered again and again without ever being acknowledged
         plans[0] = [ch.choice("q.poison.push", ["push", "push_txn"])] + ["poll", "advance"] * (3 + ch.pick("q.poison.n", 9))
+    if ch.flip("q.dlqrace", 0.12):
+        # one message driven to its attempt limit; its last holder acknowledges (or gives it back) at the moment two
+        # other actors run the dead-letter sweep: ack / move / move race on one row at statement level
+        knobs.max_attempts = 3
+        last = ch.choice("q.dlqrace.last", ["ack", "move_dlq", "reschedule", "ack"])
+        # "until": all actors resume at the same simulated instant, so the scheduler interleaves their next
+        # operations statement by statement
+        plans = [[ch.choice("q.dlqrace.push", ["push", "push_txn"]), "poll", "advance", "poll", "advance", "poll", "until", last],
+                 ["until", "check_dlq", "nap", "check_dlq"],
+                 ["until", "check_dlq", "nap", "check_dlq", "replay_dlq"]][:2 + ch.pick("q.dlqrace.n", 2)]
     crash_k = ch.pick("q.crash", 25) if ch.flip("q.crash?", 0.3) else None
     io_commit = ch.pick("q.io", 20) if ch.flip("q.io?", 0.15) else None
     io_kind = ch.choice("q.iokind", ["disk I/O error", "database or disk is full", "database is locked"])
@@ -58,6 +68,7 @@ def q_machine(ch: Choices) -> dict[str, Any]:
     try:
         w.boot()
         base = w.commit_count
+        t_rendezvous = w.clock.us + int((2 * (knobs.lock_duration_s + 1.5) + 1.0) * 1e6)
         if crash_k is not None:
             w.crash_at = (base + 1 + crash_k, ch.choice("q.crashwhen", ["before", "after"]))
         if io_commit is not None:
@@ -115,6 +126,11 @@ def q_machine(ch: Choices) -> dict[str, Any]:
                             q.reschedule(held.pop(0), timedelta(seconds=1))
                         elif op == "extend" and held:
                             q.extend_lock(held[0])
+                        elif op == "until":
+                            w.sched.sleep(max(0.0, (t_rendezvous - w.clock.us) / 1e6))
+                        elif op == "nap":
+                            # a few simulated milliseconds: lines actors up that slept the same nominal time
+                            w.sched.sleep(ch.choice("q.nap", [0.0004, 0.0015, 0.003, 0.006, 0.012]))
                         elif op == "advance":
                             w.sched.sleep(knobs.lock_duration_s + 1.5 if (seq[0] % 2 or ops[1:2] == ["poll"]) else 1.2)
                         elif op == "fail_handler":
